@@ -18,10 +18,18 @@ import LimnoriaModel.C16.Storable
 namespace C02
 open Py
 
+def s (x : String) : Str := x.toList
+
 structure Cfg where
   hash : Str → Str
   lower : Str → Str
   hm : Str → Str → Bool := C03.glob
+  /-- `irc.state.nickToHostmask`: nicks the bot has seen, with their hostmask (keys compared with
+  `toLower`) -/
+  nicks : List (Str × Str) := []
+
+def Cfg.nickToHostmask (cfg : Cfg) (n : Str) : Option Str :=
+  (cfg.nicks.find? (fun p => C03.toLower p.1 = C03.toLower n)).map (·.2)
 
 structure St where
   users : List (Nat × C16.User) := []
@@ -88,7 +96,9 @@ def putUser (st : St) (id : Nat) (u : C16.User) : St := { st with users := C16.d
 def St.clash (st : St) (id : Nat) (u : C16.User) : Bool :=
   u.hostmasks.any (fun h =>
     st.users.any (fun p => p.1 ≠ id &&
-      (st.checkHostmask p.1 p.2 h true || p.2.hostmasks.any (fun o => C03.glob h o))))
+      -- the elements of an IrcSet are IrcStrings: `hostmask == authmask` compares them with toLower
+      ((st.authOf p.1).any (fun a => C03.toLower a = C03.toLower h) ||
+       st.checkHostmask p.1 p.2 h false || p.2.hostmasks.any (fun o => C03.glob h o))))
 
 inductive SetRes | ok | duplicate | valueError
 deriving DecidableEq, Repr
@@ -117,12 +127,33 @@ def checkPassword (cfg : Cfg) (u : C16.User) (pw : Option Str) : Bool :=
   | none => false
   | some p => u.password = cfg.hash p
 
-/-- the `otherUser` converter on a name argument (not hostmask-like, resolved by name) -/
-def St.otherUser (st : St) (name : Str) : Option Nat :=
+/-- the `otherUser` converter: not hostmask-like; an account name, else the nick of somebody the
+bot has seen, resolved through that hostmask -/
+def St.otherUser (cfg : Cfg) (st : St) (name : Str) : Option Nat :=
   if C03.isUserHostmask name then none
   else match st.who name with
     | .found id => some id
-    | _ => none
+    | .duplicate => none
+    | .missing =>
+      match cfg.nickToHostmask name with
+      | some h => (match st.who h with | .found id => some id | _ => none)
+      | none => none
+
+/-- `ircdb.checkIgnored(prefix)` for a private message: trusted accounts (owners included) are
+never ignored; otherwise the account's ignore flag and the ignore database decide.
+`none` = the lookup raised (ambiguous hostmask) and the message is dropped as well. -/
+def St.ignored (st : St) (pfx : Str) : Bool :=
+  let byDb := st.ignores.any (fun p => C03.glob p.1 pfx)
+  match st.who pfx with
+  | .duplicate => true
+  | .missing => byDb
+  | .found id =>
+    match st.user id with
+    | none => byDb
+    | some u =>
+      if !u.ignore && (u.caps.contains C03.ownerS || u.caps.contains (s "trusted")) then false
+      else if u.ignore then true
+      else byDb
 
 /-- the command gate of `callbacks.Commands._callCommand` for a command sent in private:
 for `Y`, `P`, `P.X`, `P.X.Y` the anti-capability must not hold, and the command must be allowed
@@ -166,8 +197,6 @@ inductive Cmd
   | configCaps (value : List Str)                 -- config supybot.capabilities <value>
   | flushReload
 deriving Repr
-
-def s (x : String) : Str := x.toList
 
 /-- plugin path used by the gate -/
 def Cmd.path : Cmd → List Str
@@ -274,7 +303,7 @@ def body (cfg : Cfg) (st : St) (pfx : Str) : Cmd → St × Bool
                                   hostmasks := if ah then [pfx] else [] }
             ({ st with nextId := id, users := st.users ++ [(id, u)] }, true)
   | .unregister name pw =>
-    match st.otherUser name with
+    match st.otherUser cfg name with
     | none => (st, false)
     | some id =>
       match st.user id with
@@ -285,7 +314,7 @@ def body (cfg : Cfg) (st : St) (pfx : Str) : Cmd → St × Bool
         else (st, false)
   | .changename name newname pw =>
     if newname.isEmpty then (st, false) else
-    match st.otherUser name with
+    match st.otherUser cfg name with
     | none => (st, false)
     | some id =>
       match st.user id with
@@ -304,7 +333,7 @@ def body (cfg : Cfg) (st : St) (pfx : Str) : Cmd → St × Bool
         else (st, false)
   | .identify name pw =>
     if pw.isEmpty then (st, false) else
-    match st.otherUser name with
+    match st.otherUser cfg name with
     | none => (st, false)
     | some id =>
       match st.user id with
@@ -330,7 +359,7 @@ def body (cfg : Cfg) (st : St) (pfx : Str) : Cmd → St × Bool
     | _ => (st, false)
   | .hostmaskAdd name hostmask pw =>
     if hostmask.isEmpty then (st, false) else
-    match st.otherUser name with
+    match st.otherUser cfg name with
     | none => (st, false)
     | some id =>
       match st.user id with
@@ -356,7 +385,7 @@ def body (cfg : Cfg) (st : St) (pfx : Str) : Cmd → St × Bool
               | .valueError => (putUser r.1 id u', false)
   | .hostmaskRemove name hostmask pw =>
     if hostmask.isEmpty then (st, false) else
-    match st.otherUser name with
+    match st.otherUser cfg name with
     | none => (st, false)
     | some id =>
       match st.user id with
@@ -381,7 +410,7 @@ def body (cfg : Cfg) (st : St) (pfx : Str) : Cmd → St × Bool
         | _ => (st, false)
   | .setPassword name old new =>
     if old.isEmpty || new.isEmpty then (st, false) else
-    match st.otherUser name with
+    match st.otherUser cfg name with
     | none => (st, false)
     | some id =>
       match st.user id with
@@ -413,7 +442,7 @@ def body (cfg : Cfg) (st : St) (pfx : Str) : Cmd → St × Bool
     | _ => (st, false)
   | .capAdd name cap0 =>
     let cap := C03.toLower cap0
-    match st.otherUser name with
+    match st.otherUser cfg name with
     | none => (st, false)
     | some id =>
       match st.user id with
@@ -435,7 +464,7 @@ def body (cfg : Cfg) (st : St) (pfx : Str) : Cmd → St × Bool
           | _ => (st, false)
   | .capRemove name cap0 =>
     let cap := C03.toLower cap0
-    match st.otherUser name with
+    match st.otherUser cfg name with
     | none => (st, false)
     | some id =>
       match st.user id with
@@ -459,7 +488,7 @@ def body (cfg : Cfg) (st : St) (pfx : Str) : Cmd → St × Bool
         | _ => (st, false)
   | .chanCapAdd chan name cap =>
     if !st.opGuard pfx chan then (st, false) else
-    match st.otherUser name with
+    match st.otherUser cfg name with
     | none => (st, false)
     | some id =>
       match st.user id with
@@ -483,7 +512,7 @@ def body (cfg : Cfg) (st : St) (pfx : Str) : Cmd → St × Bool
         | _ => (st, false)
   | .chanCapRemove chan name cap =>
     if !st.opGuard pfx chan then (st, false) else
-    match st.otherUser name with
+    match st.otherUser cfg name with
     | none => (st, false)
     | some id =>
       match st.user id with
@@ -522,12 +551,17 @@ def body (cfg : Cfg) (st : St) (pfx : Str) : Cmd → St × Bool
     else
       let c := st.chan chan
       (st.putChan chan { c with defaultAllow := v }, true)
-  | .ignoreAdd h =>
-    if C03.isUserHostmask h then ({ st with ignores := C16.dictSet h 0 st.ignores }, true) else (st, false)
-  | .ignoreRemove h =>
-    if !C03.isUserHostmask h then (st, false)
-    else if st.ignores.any (fun p => p.1 = h) then ({ st with ignores := st.ignores.filter (fun p => p.1 ≠ h) }, true)
-    else (st, false)
+  | .ignoreAdd h0 =>
+    -- the `hostmask` converter: a hostmask, or the nick of somebody seen
+    match (if C03.isUserHostmask h0 then some h0 else cfg.nickToHostmask h0) with
+    | some h => if C03.isUserHostmask h then ({ st with ignores := C16.dictSet h 0 st.ignores }, true) else (st, false)
+    | none => (st, false)
+  | .ignoreRemove h0 =>
+    match (if C03.isUserHostmask h0 then some h0 else cfg.nickToHostmask h0) with
+    | some h =>
+      if st.ignores.any (fun p => p.1 = h) then ({ st with ignores := st.ignores.filter (fun p => p.1 ≠ h) }, true)
+      else (st, false)
+    | none => (st, false)
   | .defaultCapAdd cap =>
     if !noSpaces cap then (st, false) else
     match C03.CapSet.add st.defaults cap with
@@ -561,7 +595,11 @@ def allowed (st : St) (pfx : Str) (c : Cmd) : Bool :=
 
 /-- one command from the hostmask `pfx` -/
 def step (cfg : Cfg) (st : St) (pfx : Str) (c : Cmd) : St × Bool :=
-  if allowed st pfx c then body cfg st pfx c else (st, false)
+  match c with
+  | .flushReload => body cfg st pfx c          -- not an IRC command: the harness calls flush()/reload()
+  | _ =>
+    if st.ignored pfx then (st, false)          -- Owner.doPrivmsg drops the message
+    else if allowed st pfx c then body cfg st pfx c else (st, false)
 
 /-- accounts holding the literal `owner` capability -/
 def owners (st : St) : List Nat := (st.users.filter (fun p => p.2.caps.contains C03.ownerS)).map (·.1)
